@@ -488,7 +488,7 @@ def clause_negzero_partitions(R):
     R.analysed.setdefault("unsupported", []).extend(S.unsupported[:5])
 
 
-def clause_fit_partitions(R):
+def clause_fit_partitions(R, rule="C07-fit"):
     """reader/writer agreement at the buffer's end, the missing terminator and the unary-run cap, semantically
     (known-bits partitions of decompress's input; `?` = unknown bit):
       accept (Some reachable):  last terminator ON the last buffer bit, after a non-empty run and after an empty run (n = 1, 2);
@@ -539,7 +539,7 @@ def clause_fit_partitions(R):
         some = any(type(r) is En and 1 in r.vs for r, _ in outs)
         if some != want:
             bad.append(f"{name}: `Some` is {'reachable' if some else 'unreachable'}, expected {'reachable' if want else 'unreachable'}")
-    R.check(not bad, "C07-fit", "decompress: end-of-buffer / terminator / run-cap partitions (known-bits domain)",
+    R.check(not bad, rule, "decompress: end-of-buffer / terminator / run-cap partitions (known-bits domain)",
             f"{len(cases)} partitions: an encoding that fills the buffer exactly is readable, one without terminator or with a 95-zero run is not",
             f"{len(bad)} partition(s): {bad[:3]}", key="fit-partitions", data={"bad": bad})
     R.floor("fit partitions run", len(cases), 17)
